@@ -61,17 +61,18 @@ Qed.
 
 Section Reply.
 Variables (S : schema) (names : list (str * N)) (uris : list (str * N)) (kinds : list (N * N))
-          (globals : list (qn * qn)).
+          (globals : list (qn * qn)) (simple : list (qn * N)).
 Hypothesis Hschema : schema_ok S = true.
 Hypothesis Hnames : names_ok names = true.
 Hypothesis Hkinds : kinds_ok kinds = true.
 Hypothesis Hglobals : globals_ok S globals = true.
+Hypothesis Hsimple : simple_ok simple = true.
 
 Notation dec := (decode S names uris kinds globals false true).
-Notation refn := (ref_node S names uris kinds).
-Notation flg := (flags_node S names uris kinds).
+Notation refn := (ref_node S names uris kinds simple).
+Notation flg := (flags_node S names uris kinds simple).
 Notation ptop := (process_top S names uris kinds globals false true).
-Notation rtop := (ref_top S names uris kinds).
+Notation rtop := (ref_top S names uris kinds simple).
 
 Definition conv (f : fchild) : rentry := match f with FE d _ _ => RE d | FAny _ => RAny end.
 
@@ -114,7 +115,7 @@ Proof.
   intros He Hd Hf Hr. unfold ref_top in Hr. unfold process_top.
   destruct (decl_matches names uris d (i_u inn) (i_nm inn)); [|discriminate].
   destruct (resolve_tref S kinds (e_name d) (e_type d)) as [t|] eqn:Et; [|discriminate].
-  apply (decode_ref_l S names uris kinds globals Hschema Hnames Hkinds Hglobals n env t (e_nil d) _ inn v);
+  apply (decode_ref_l S names uris kinds globals simple Hschema Hnames Hkinds Hglobals Hsimple n env t (e_nil d) _ inn v);
     auto.
   eapply resolve_tref_ok; eauto.
 Qed.
@@ -197,7 +198,7 @@ Lemma composite_ref env rts ms : rnames_ok rts [] = true -> (forall d, In d ms -
     forallb (doc_ok env) nodes = true ->
     (forall inn d t, In inn inodes -> find (fun d => decl_matches names uris d (i_u inn) (i_nm inn)) ms = Some d ->
                      resolve_tref S kinds (e_name d) (e_type d) = Some t -> flg t (e_nil d) inn = []) ->
-    ref_composite S names uris kinds ms inodes data = Some fields ->
+    ref_composite S names uris kinds simple ms inodes data = Some fields ->
     composite S names uris kinds globals false true env rts nodes data = DOk (PObj None fields).
 Proof.
   intros Hms Hsub. induction nodes as [|n r IH]; intros inodes data fields He Hd Hf Hr; cbn in He.
@@ -239,19 +240,101 @@ Proof.
   apply ostr_eqb_true in H1. rewrite H1, Hu. now apply IH.
 Qed.
 
-Lemma reply_decodes_l : forall wq wt raw root x v,
-  fnames_ok (flat_elems S wt) [] = true ->
-  rnames_ok (returned_types S wt) [] = true ->
+(* what returned_types yields against the outputs the reference counts *)
+Definition rts_rel (rts : list rentry) (ms : list edecl) (hasattrs : bool) : Prop :=
+  if hasattrs then (forall d, In d ms -> In (RE d) rts) /\ (exists a, In (RA a) rts)
+  else rts = map RE ms.
+
+Lemma outputs_ref env rts ms hasattrs nodes inodes v :
+  rnames_ok rts [] = true -> rts_rel rts ms hasattrs ->
+  omap (erase env) nodes = Some inodes -> forallb (doc_ok env) nodes = true ->
+  flags_outputs S names uris kinds simple ms inodes = [] ->
+  ref_outputs S names uris kinds simple ms hasattrs inodes = Some v ->
+  outputs S names uris kinds globals false true env rts nodes = DOk v.
+Proof.
+  intros Hrn Hrel Heks Hdks Hf Hr.
+  assert (Hflag : forall inn d t, In inn inodes ->
+                    find (fun d => decl_matches names uris d (i_u inn) (i_nm inn)) ms = Some d ->
+                    resolve_tref S kinds (e_name d) (e_type d) = Some t -> flg t (e_nil d) inn = []).
+  { intros inn d t Hin Hfd Ht. unfold flags_outputs in Hf. revert Hf Hin.
+    generalize inodes. intro nl. induction nl as [|z nl IHl]; intros Hz Hi; [destruct Hi|].
+    cbn in Hz. apply app_eq_nil in Hz as [Hz1 Hz2]. destruct Hi as [Hi|Hi].
+    - subst z. now rewrite Hfd, Ht in Hz1.
+    - now apply IHl. }
+  assert (Hsub : forall d0, In d0 ms -> In (RE d0) rts).
+  { unfold rts_rel in Hrel. destruct hasattrs; [exact (proj1 Hrel)|]. subst rts. intros d0 H0. now apply in_map. }
+  assert (Hcompo : forall fields r1 r2 rest, rts = r1 :: r2 :: rest ->
+             ref_composite S names uris kinds simple ms inodes [] = Some fields ->
+             outputs S names uris kinds globals false true env rts nodes = DOk (PObj None fields)).
+  { intros fields r1 r2 rest Ert Erc.
+    pose proof (composite_ref env rts ms Hrn Hsub _ _ [] fields Heks Hdks Hflag Erc) as Hcomp.
+    rewrite Ert in *. unfold outputs. destruct r1; exact Hcomp. }
+  unfold ref_outputs in Hr. destruct hasattrs.
+  - (* the wrapper's type has attributes: always the composite object *)
+    destruct ms as [|d ms1]; [discriminate|].
+    assert (Hr' : match ref_composite S names uris kinds simple (d :: ms1) inodes [] with
+                  | Some fields => Some (PObj None fields)
+                  | None => None
+                  end = Some v) by (destruct ms1; exact Hr).
+    destruct (ref_composite S names uris kinds simple (d :: ms1) inodes []) as [fields|] eqn:Erc; [|discriminate].
+    inversion Hr'; subst v. destruct Hrel as [_ [a HinA]].
+    destruct rts as [|r1 [|r2 rest]] eqn:Ert.
+    + destruct HinA.
+    + exfalso. destruct (Hsub d (or_introl eq_refl)) as [E1|[]]. destruct HinA as [E2|[]].
+      rewrite E1 in E2. discriminate.
+    + now apply (Hcompo fields r1 r2 rest).
+  - unfold rts_rel in Hrel. destruct ms as [|d [|d2 ms2]].
+    + subst rts. inversion Hr. reflexivity.
+    + subst rts. unfold outputs. cbn [map]. destruct (e_multi d) eqn:Emul.
+      * destruct (omap (rtop d) inodes) as [vl|] eqn:Eom; [|discriminate]. inversion Hr; subst v.
+        assert (G : forall nds inds vl0, omap (erase env) nds = Some inds ->
+                      forallb (doc_ok env) nds = true ->
+                      (forall inn, In inn inds -> In inn inodes) ->
+                      omap (rtop d) inds = Some vl0 ->
+                      dmap (ptop env d) nds = DOk vl0).
+        { induction nds as [|n r IHn]; intros inds l0 Hen Hdn Hsb Hon; cbn in Hen.
+          - inversion Hen; subst. cbn in Hon. inversion Hon. reflexivity.
+          - destruct (erase env n) as [inn|] eqn:En; [|discriminate].
+            destruct (omap (erase env) r) as [ir|] eqn:Er; [|discriminate]. inversion Hen; subst.
+            cbn in Hdn. apply andb_true_iff in Hdn as [Hdn1 Hdn2]. cbn in Hon.
+            destruct (rtop d inn) as [v1|] eqn:Ev1; [|discriminate].
+            destruct (omap (rtop d) ir) as [vs|] eqn:Evs; [|discriminate]. inversion Hon; subst.
+            cbn [dmap]. rewrite (process_top_ref env d n inn v1 En Hdn1); [| |exact Ev1].
+            2:{ intros t Ht. apply (Hflag inn d t); [apply Hsb; now left| |exact Ht].
+                cbn [find]. unfold ref_top in Ev1.
+                destruct (decl_matches names uris d (i_u inn) (i_nm inn)); [reflexivity|discriminate]. }
+            cbn [dbind]. rewrite (IHn ir vs eq_refl Hdn2); [reflexivity| |exact Evs].
+            intros z Hz. apply Hsb. now right. }
+        rewrite (G _ _ _ Heks Hdks (fun _ H => H) Eom). reflexivity.
+      * destruct inodes as [|inn [|inn2 irest]].
+        -- assert (Hn0 : nodes = []) by (apply omap_length in Heks; destruct nodes; [reflexivity|discriminate]).
+           subst nodes. inversion Hr. reflexivity.
+        -- destruct nodes as [|n rest]; [discriminate|]. cbn in Heks. revert Heks.
+           destruct (erase env n) as [inn'|] eqn:En; [|discriminate].
+           destruct (omap (erase env) rest); [|discriminate]. intro Heks. inversion Heks; subst inn'.
+           cbn in Hdks. apply andb_true_iff in Hdks as [Hdn _].
+           apply (process_top_ref env d n inn v En Hdn); [|exact Hr].
+           intros t Ht. apply (Hflag inn d t); [now left| |exact Ht].
+           cbn [find]. unfold ref_top in Hr.
+           destruct (decl_matches names uris d (i_u inn) (i_nm inn)); [reflexivity|discriminate].
+        -- discriminate.
+    + destruct (ref_composite S names uris kinds simple (d :: d2 :: ms2) inodes []) as [fields|] eqn:Erc;
+        [|discriminate].
+      inversion Hr; subst v. subst rts. now apply (Hcompo fields (RE d) (RE d2) (map RE ms2)).
+Qed.
+
+Lemma reply_decodes_l : forall wq st raw root x v,
+  style_ok S st = true ->
   build raw = [root] ->
   erase [] root = Some x ->
   consistent root = true -> no_xml_decl root = true ->
   doc_ok [] (promote_node root) = true ->
   bodies_ok x = true ->
-  flags_reply S names uris kinds wt x = [] ->
-  ref_reply S names uris kinds wq wt x = Some v ->
-  reply S names uris kinds globals false true true wt raw = DOk v.
+  flags_reply S names uris kinds simple st x = [] ->
+  ref_reply S names uris kinds simple wq st x = Some v ->
+  reply S names uris kinds globals false true true st raw = DOk v.
 Proof.
-  intros wq wt raw root x v Hwt Hrn Hb He Hc Hx Hd Hbo Hf Hr.
+  intros wq st raw root x v Hst Hb He Hc Hx Hd Hbo Hf Hr.
   unfold reply. rewrite Hb. unfold get_reply.
   pose proof (promote_preserves_infoset_l root x Hc Hx He) as Hep.
   destruct x as [u nm ias text iks]. unfold ref_reply in Hr.
@@ -306,112 +389,46 @@ Proof.
   assert (Hdb : doc_ok [frame_of envl] body = true) by (rewrite forallb_forall in Hdk; now apply Hdk).
   pose proof (erase_kids _ _ _ Heb) as Hekb.
   pose proof (doc_ok_kids _ _ Hdb) as Hdkb.
-  destruct ibody as [bu bnm bats btext bkids]. cbn [i_kids] in Hekb.
-  destruct bkids as [|w wr]; [discriminate|].
-  destruct (e_kids body) as [|kw kr] eqn:Ekb; [discriminate|].
-  cbn in Hekb. revert Hekb.
-  destruct (erase (frame_of body :: [frame_of envl]) kw) as [w'|] eqn:Ekw; [|discriminate].
-  destruct (omap (erase (frame_of body :: [frame_of envl])) kr); [|discriminate].
-  intro Hekb. inversion Hekb; subst w'. clear Hekb.
-  cbn in Hdkb. apply andb_true_iff in Hdkb as [Hdw _].
-  pose proof (erase_kids _ _ _ Ekw) as Heks.
-  pose proof (doc_ok_kids _ _ Hdw) as Hdks.
-  set (env := frame_of kw :: frame_of body :: [frame_of envl]) in *.
-  destruct (negb (qn_eqb (uid uris (i_u w), nid names (i_nm w)) wq)); [discriminate|].
-  destruct (negb (all_space (i_text w))); [discriminate|].
-  destruct (members (flat_elems S wt)) as [ms|] eqn:Ems; [|discriminate].
-  pose proof (members_length _ _ Ems) as Hlen.
-  pose proof (members_fnames _ _ _ Ems Hwt) as Hmsok.
-  (* flags of the top-level nodes *)
-  assert (Hflag : forall inn d t, In inn (i_kids w) ->
-                    find (fun d => decl_matches names uris d (i_u inn) (i_nm inn)) ms = Some d ->
-                    resolve_tref S kinds (e_name d) (e_type d) = Some t -> flg t (e_nil d) inn = []).
-  { intros inn d t Hin Hfd Ht.
-    destruct (members_find _ _ _ _ _ Ems Hfd) as [a [c Hfl]].
-    assert (G : forall nl, flat_map (fun n =>
-                   match find (fun f => match f with FE d _ _ => decl_matches names uris d (i_u n) (i_nm n)
-                                                | _ => false end) (flat_elems S wt) with
-                   | Some (FE d _ _) => match resolve_tref S kinds (e_name d) (e_type d) with
-                                        | Some t => flg t (e_nil d) n
-                                        | None => []
-                                        end
-                   | _ => []
-                   end) nl = [] -> In inn nl -> flg t (e_nil d) inn = []).
-    { intro nl. induction nl as [|z nl IHl]; intros Hz Hi; [destruct Hi|]. destruct Hi as [Hi|Hi].
-      - subst z. cbn in Hz. apply app_eq_nil in Hz as [Hz _]. now rewrite Hfl, Ht in Hz.
-      - cbn in Hz. apply app_eq_nil in Hz as [_ Hz]. now apply IHl. }
-    apply (G _ Hf Hin). }
-  destruct (flat_attrs S wt) as [|a0 ar] eqn:Eat.
-  2:{ (* the wrapper's type has attributes: always the composite object *)
-    destruct ms as [|d ms1]; [discriminate|].
-    assert (Hr' : match ref_composite S names uris kinds (d :: ms1) (i_kids w) [] with
-                  | Some fields => Some (PObj None fields)
-                  | None => None
-                  end = Some v) by (destruct ms1; exact Hr).
-    destruct (ref_composite S names uris kinds (d :: ms1) (i_kids w) []) as [fields|] eqn:Erc; [|discriminate].
-    inversion Hr'; subst v.
-    assert (Hsub : forall d0, In d0 (d :: ms1) -> In (RE d0) (returned_types S wt)).
-    { intros d0 Hin0. destruct (members_in _ _ _ Ems Hin0) as [a [c Hi]]. eapply returned_types_in; eauto. }
-    pose proof (composite_ref env (returned_types S wt) (d :: ms1) Hrn Hsub _ _ [] fields Heks Hdks Hflag Erc)
-      as Hcomp.
-    assert (HinA : In (RA a0) (returned_types S wt)) by (apply returned_types_attr; rewrite Eat; now left).
-    destruct (returned_types S wt) as [|r1 [|r2 rest]] eqn:Ert.
-    - destruct HinA.
-    - exfalso. destruct (Hsub d (or_introl eq_refl)) as [E1|[]]. destruct HinA as [E2|[]].
-      rewrite E1 in E2. discriminate.
-    - destruct r1; exact Hcomp. }
-  destruct ms as [|d [|d2 ms2]].
-  - rewrite (returned_types_elems _ Eat), (members_conv _ _ Ems).
-    inversion Hr. reflexivity.
-  - rewrite (returned_types_elems _ Eat), (members_conv _ _ Ems).
-    cbn [map]. destruct (e_multi d) eqn:Emul.
-    + destruct (omap (rtop d) (i_kids w)) as [vl|] eqn:Eom; [|discriminate]. inversion Hr; subst v.
-      assert (G : forall nodes inodes vl0, omap (erase env) nodes = Some inodes ->
-                    forallb (doc_ok env) nodes = true ->
-                    (forall inn, In inn inodes -> In inn (i_kids w)) ->
-                    omap (rtop d) inodes = Some vl0 ->
-                    dmap (ptop env d) nodes = DOk vl0).
-      { induction nodes as [|n r IHn]; intros inodes l0 Hen Hdn Hsub Hon; cbn in Hen.
-        - inversion Hen; subst. cbn in Hon. inversion Hon. reflexivity.
-        - destruct (erase env n) as [inn|] eqn:En; [|discriminate].
-          destruct (omap (erase env) r) as [ir|] eqn:Er; [|discriminate]. inversion Hen; subst.
-          cbn in Hdn. apply andb_true_iff in Hdn as [Hdn1 Hdn2]. cbn in Hon.
-          destruct (rtop d inn) as [v1|] eqn:Ev1; [|discriminate].
-          destruct (omap (rtop d) ir) as [vs|] eqn:Evs; [|discriminate]. inversion Hon; subst.
-          cbn [dmap]. rewrite (process_top_ref env d n inn v1 En Hdn1); [| |exact Ev1].
-          2:{ intros t Ht. apply (Hflag inn d t); [apply Hsub; now left| |exact Ht].
-              cbn [find]. unfold ref_top in Ev1.
-              destruct (decl_matches names uris d (i_u inn) (i_nm inn)); [reflexivity|discriminate]. }
-          cbn [dbind]. rewrite (IHn ir vs eq_refl Hdn2); [reflexivity| |exact Evs].
-          intros z Hz. apply Hsub. now right. }
-      rewrite (G _ _ _ Heks Hdks (fun _ H => H) Eom). reflexivity.
-    + destruct (i_kids w) as [|inn [|inn2 irest]] eqn:Eik.
-      * destruct (e_kids kw) as [|n rest] eqn:Ekk; [|cbn in Heks; destruct (erase env n); [|discriminate];
-                                                      destruct (omap (erase env) rest); discriminate].
-        inversion Hr. reflexivity.
-      * destruct (e_kids kw) as [|n rest] eqn:Ekk; [discriminate|]. cbn in Heks. revert Heks.
-        destruct (erase env n) as [inn'|] eqn:En; [|discriminate].
-        destruct (omap (erase env) rest); [|discriminate]. intro Heks. inversion Heks; subst inn'.
-        cbn in Hdks. apply andb_true_iff in Hdks as [Hdn _].
-        apply (process_top_ref env d n inn v En Hdn); [|exact Hr].
-        intros t Ht. apply (Hflag inn d t); [now left| |exact Ht].
-        cbn [find]. unfold ref_top in Hr.
-        destruct (decl_matches names uris d (i_u inn) (i_nm inn)); [reflexivity|discriminate].
-      * discriminate.
-  - destruct (ref_composite S names uris kinds (d :: d2 :: ms2) (i_kids w) []) as [fields|] eqn:Erc; [|discriminate].
-    inversion Hr; subst v.
-    assert (Hsub : forall d0, In d0 (d :: d2 :: ms2) -> In (RE d0) (returned_types S wt)).
-    { intros d0 Hin0. destruct (members_in _ _ _ Ems Hin0) as [a [c Hi]]. eapply returned_types_in; eauto. }
-    pose proof (composite_ref env (returned_types S wt) (d :: d2 :: ms2) Hrn Hsub _ _ [] fields Heks Hdks Hflag Erc)
-      as Hcomp.
-    destruct (returned_types S wt) as [|r1 [|r2 rest]] eqn:Ert.
-    + destruct (Hsub d (or_introl eq_refl)).
-    + exfalso. destruct (Hsub d (or_introl eq_refl)) as [E1|[]].
-      destruct (Hsub d2 (or_intror (or_introl eq_refl))) as [E2|[]].
-      rewrite E1 in E2. inversion E2; subst d2.
-      cbn [map fnames_ok existsb] in Hmsok. rewrite N.eqb_refl in Hmsok. cbn [orb negb andb] in Hmsok.
-      discriminate.
-    + destruct r1; exact Hcomp.
+  destruct st as [wt|parts|parts].
+  - (* document/literal wrapped *)
+    unfold style_ok in Hst. apply andb_true_iff in Hst as [Hwt Hrn].
+    destruct (i_kids ibody) as [|w wr] eqn:Eib; [discriminate|].
+    destruct (e_kids body) as [|kw kr] eqn:Ekb; [discriminate|].
+    cbn in Hekb. revert Hekb.
+    destruct (erase (frame_of body :: [frame_of envl]) kw) as [w'|] eqn:Ekw; [|discriminate].
+    destruct (omap (erase (frame_of body :: [frame_of envl])) kr); [|discriminate].
+    intro Hekb. inversion Hekb; subst w'. clear Hekb.
+    cbn in Hdkb. apply andb_true_iff in Hdkb as [Hdw _].
+    pose proof (erase_kids _ _ _ Ekw) as Heks.
+    pose proof (doc_ok_kids _ _ Hdw) as Hdks.
+    destruct (negb (qn_eqb (uid uris (i_u w), nid names (i_nm w)) wq)); [discriminate|].
+    destruct (negb (all_space (i_text w))); [discriminate|].
+    destruct (members (flat_elems S wt)) as [ms|] eqn:Ems; [|discriminate].
+    apply (outputs_ref _ (returned_types S wt) ms (match flat_attrs S wt with [] => false | _ => true end)
+                       _ (i_kids w) v Hrn); auto.
+    unfold rts_rel. destruct (flat_attrs S wt) as [|a0 ar] eqn:Eat.
+    + rewrite (returned_types_elems _ Eat). now apply members_conv.
+    + split.
+      * intros d0 Hin0. destruct (members_in _ _ _ Ems Hin0) as [a [c Hi]]. eapply returned_types_in; eauto.
+      * exists a0. apply returned_types_attr. rewrite Eat. now left.
+  - (* document/literal bare *)
+    unfold style_ok in Hst.
+    destruct (negb (all_space (i_text ibody))); [discriminate|].
+    apply (outputs_ref _ (map RE parts) parts false _ (i_kids ibody) v Hst); auto. reflexivity.
+  - (* rpc/literal *)
+    unfold style_ok in Hst.
+    destruct (i_kids ibody) as [|w wr] eqn:Eib; [discriminate|].
+    destruct (e_kids body) as [|kw kr] eqn:Ekb; [discriminate|].
+    cbn in Hekb. revert Hekb.
+    destruct (erase (frame_of body :: [frame_of envl]) kw) as [w'|] eqn:Ekw; [|discriminate].
+    destruct (omap (erase (frame_of body :: [frame_of envl])) kr); [|discriminate].
+    intro Hekb. inversion Hekb; subst w'. clear Hekb.
+    cbn in Hdkb. apply andb_true_iff in Hdkb as [Hdw _].
+    pose proof (erase_kids _ _ _ Ekw) as Heks.
+    pose proof (doc_ok_kids _ _ Hdw) as Hdks.
+    destruct (negb (qn_eqb (uid uris (i_u w), nid names (i_nm w)) wq)); [discriminate|].
+    destruct (negb (all_space (i_text w))); [discriminate|].
+    apply (outputs_ref _ (map RE parts) parts false _ (i_kids w) v Hst); auto. reflexivity.
 Qed.
 
 End Reply.
